@@ -138,7 +138,7 @@ class Scratch:
                 raise SystemExit("INCONCLUSIVE: cannot find unique src file for harness %s" % h)
             tgt = tgt[0]
             with open(tgt, "a") as fh:
-                fh.write('\n#[cfg(kani)] #[path = "%s"] mod __verif;\n' % os.path.join(self.hdir, h))
+                fh.write('\n#[cfg(kani)] #[path = "%s"] pub(crate) mod __verif;\n' % os.path.join(self.hdir, h))
             rel = os.path.relpath(tgt, src)[:-3].split(os.sep)
             if rel[-1] == "mod":
                 rel = rel[:-1]
